@@ -73,10 +73,18 @@ class IsoTpStateMachine:
             frame_type, telegram_len = bitstruct.unpack("u4u4", data)
             assert isinstance(telegram_len, int)
 
-            self.on_single_frame(telegram_idx, data[1:1 + telegram_len])
-            self.on_telegram_complete(telegram_idx, data[1:1 + telegram_len])
+            payload_start = 1
+            if telegram_len == 0 and len(data) > 8:
+                # CAN-FD single frame: the length is specified by the
+                # byte after the PCI byte
+                telegram_len = data[1]
+                payload_start = 2
+            payload = data[payload_start:payload_start + telegram_len]
 
-            yield (rx_id, data[1:1 + telegram_len])
+            self.on_single_frame(telegram_idx, payload)
+            self.on_telegram_complete(telegram_idx, payload)
+
+            yield (rx_id, payload)
 
         elif frame_type == IsoTp.FRAME_TYPE_FIRST:
             frame_type, telegram_len = bitstruct.unpack("u4u12", data)
